@@ -164,6 +164,22 @@ func (e *Exec) callFunc(st *State, f *ssa.Function, bindings, args []Value, pos 
 			}
 		}
 	}
+	if spec := e.DB.Funcs[key]; spec != nil && !spec.Inline && !forceInline && f != e.curFn() && !spec.Extern && len(f.Blocks) > 0 {
+		if why := e.staleContract(f, spec); why != "" {
+			// the contract no longer fits the function (its signature or the
+			// types it talks about changed): it is ignored with a note, the
+			// function is inlined like any function without a contract, and the
+			// predicates it used to reveal are revealed to its callers
+			e.note("contract of %s does not fit the function any more (%s): ignored, the function is inlined", key, why)
+			for _, r := range spec.Reveal {
+				if e.extraReveal == nil {
+					e.extraReveal = map[string]bool{}
+				}
+				e.extraReveal[r] = true
+			}
+			forceInline = true
+		}
+	}
 	if spec := e.DB.Funcs[key]; spec != nil && !spec.Inline && !forceInline && f != e.curFn() {
 		if spec.Extern {
 			e.Externs[key] = true
@@ -1291,4 +1307,71 @@ func readOnlyStdlib(key string) bool {
 		}
 	}
 	return true
+}
+
+
+// staleContract reports (with a reason) whether a contract cannot be evaluated
+// against the current signature of its function: a different number of
+// parameters or results, or clauses that mention fields / identifiers the
+// parameter types no longer have.
+func (e *Exec) staleContract(f *ssa.Function, spec *FuncSpec) (why string) {
+	key := funcKey(f)
+	if e.staleMemo == nil {
+		e.staleMemo = map[string]string{}
+	}
+	if w, ok := e.staleMemo[key]; ok {
+		return w
+	}
+	defer func() { e.staleMemo[key] = why }()
+	if len(spec.Params) > 0 && len(spec.Params) != len(f.Params) {
+		return fmt.Sprintf("the contract names %d parameters, the function has %d", len(spec.Params), len(f.Params))
+	}
+	if len(spec.Results) > f.Signature.Results().Len() {
+		return fmt.Sprintf("the contract names %d results, the function has %d", len(spec.Results), f.Signature.Results().Len())
+	}
+	// dry evaluation of requires / ensures on arbitrary arguments
+	nax := len(e.Axioms)
+	nfacts := len(e.Notes)
+	_ = nfacts
+	e.dry++
+	defer func() {
+		e.dry--
+		e.Axioms = e.Axioms[:nax]
+		if r := recover(); r != nil {
+			se, ok := r.(specError)
+			if !ok {
+				if _, isRef := r.(refusal); isRef {
+					why = ""
+					return
+				}
+				panic(r)
+			}
+			m := se.msg
+			for _, pat := range []string{"no field", "deref of non-pointer", "not a struct", "cannot index"} {
+				if strings.Contains(m, pat) {
+					why = m
+					return
+				}
+			}
+			why = ""
+		}
+	}()
+	st := &State{guard: e.C.True(), env: map[ssa.Value]Value{}, mem: map[*Object]Value{}}
+	var args []Value
+	for _, p := range f.Params {
+		args = append(args, e.fresh(p.Type(), "stale_"+p.Name()))
+	}
+	var results []Value
+	res := f.Signature.Results()
+	for i := 0; i < res.Len(); i++ {
+		results = append(results, e.fresh(res.At(i).Type(), "stale_r"))
+	}
+	vars := bindSpecVars(spec, args, results)
+	for _, rq := range spec.Requires {
+		e.evalSpecBool(rq, vars, st, st, "requires")
+	}
+	for _, en := range spec.Ensures {
+		e.evalSpecBool(en, vars, st, st, "ensures")
+	}
+	return ""
 }
